@@ -5,8 +5,8 @@ use crate::choices::Choices;
 use crate::lex::{lex, TK};
 
 const NON_ASCII: &[&str] = &["é", "ß", "日本", "🦀", "\u{200b}", "ａ", "Ω", "\u{feff}", "ñ", "一", "\u{3000}", "\u{a0}", "\u{2003}"];
-const ODD_LITERALS: &[&str] = &["0b1f32", "0o7f64", "1e", "0x", "0b", "1_f32", "0.0_f32", "1__000", "1.0e+", "'ab'", "b'\\xff'", "r#\"q\"#", "0xffu8", "1e1_0", "0b12", "9.9.9", "1..2.", "0e0f32"];
-const MARKDOWN: &[&str] = &["/// > >é quoted text that goes on for a while so that the wrapping code has something to do with it", "/// - item é\n///     - nested 日本 item that is long enough to be wrapped at small widths for sure", "/// 1. first\n/// 12) second ß", "/// > >>a", "//! * bullet\n//!   continued ａ", "/*\n\u{3000}* wide space before the star\n */", "/// ```\n/// let é = 1;\n/// ```", "/// | a | b |\n/// |---|---|\n/// | é | 日本 |"];
+const ODD_LITERALS: &[&str] = &["0b1f32", "0o7f64", "1e", "0x", "0b", "1_f32", "0.0_f32", "1__000", "1.0e+", "'ab'", "b'\\xff'", "r#\"q\"#", "0xffu8", "1e1_0", "0b12", "9.9.9", "1..2.", "0e0f32", "\"first line\nb\".to_string()", "r\"x\ny\".len().max(1)", "\"é\n\".trim().len()"];
+const MARKDOWN: &[&str] = &["/// > >é quoted text that goes on for a while so that the wrapping code has something to do with it", "/// - item é\n///     - nested 日本 item that is long enough to be wrapped at small widths for sure", "/// 1. first\n/// 12) second ß", "/// > >>a", "//! * bullet\n//!   continued ａ", "/*\n\u{3000}* wide space before the star\n */", "/// ```\n/// let é = 1;\n/// ```", "/// | a | b |\n/// |---|---|\n/// | é | 日本 |", "///                                                                                                     - an item whose marker stands far to the right of the page", "///     - nested\n///         - deeper nested item with some words in it\n///             1. and an ordered one below"];
 const DELIMS: &[&str] = &["(", ")", "[", "]", "{", "}", "<", ">", "\"", "'", "/*", "*/", "//", "r#\"", "|"];
 
 pub fn mutate(src: &str, c: &mut Choices<'_>, n_mut: usize) -> (String, Vec<&'static str>) {
